@@ -25,6 +25,14 @@ Example C18_selector_nonvacuous :
   validate_spec_raw (Some [mkRawTerm [mkRaw [120; 47]%N (Some OpExists) []] []]) 8 (VCidr true 16) VEmpty = 2%nat.
 Proof. split; vm_compute; reflexivity. Qed.
 
+(* where validation stops and the controller's own check of the selector begins: a validated matchExpressions requirement is one
+   labels.NewRequirement accepts when its values are label values and, for Gt / Lt, an integer -- what validation does not look at *)
+Theorem C18_validated_requirement_is_accepted_by_NewRequirement :
+  forall r op, rr_op r = Some op -> rawreq_ok r = true -> forallb valid_value (rr_vals r) = true ->
+  (match op with OpGt | OpLt => forallb (fun v => is_some (parse_int64 v)) (rr_vals r) = true | _ => True end) ->
+  new_req_ok (req_of_raw r op) = true.
+Proof. exact validated_requirement_is_accepted. Qed.
+
 (* the limits, for every prefix length at once *)
 Theorem C18_hostbits_limits : forall (is4 : bool) (ms hb : Z),
   let w := if is4 then 32 else 128 in
